@@ -38,3 +38,19 @@ Theorem C02_ce : forall (F : Type) (O : Ops F) bs (a : @Atr F) mn mx m,
   map3 (fun at_ lo hi => [sub O hi (mul O at_ m); add O lo (mul O at_ m)])
        (atr_bar_outs O a bs) (min_outs' O mn (map b_low bs)) (max_outs' O mx (map b_high bs)).
 Proof. intros. apply ce_wiring. Qed.
+
+(* exact arithmetic: the recursion on reals with k = 2/(n+1) in (0,1], and its closed form
+   e_t = sum_{i>=2} k (1-k)^(t-i) x_i + (1-k)^(t-1) x_1  ([ema_closed_sum] runs over the inputs after the first, newest first) *)
+From Coq Require Import Reals.
+From TA Require Import XR Proofs.XEma.
+Theorem C02_ema_exact : forall p s (xs : list R), ema_new XROps p = Ok s ->
+  ema_outs XROps s (map Fin xs) = map Fin (ema_stream (kreal p) xs) /\ (0 < kreal p <= 1)%R /\ kreal p = (2 / (IZR (Z.of_N p) + 1))%R.
+Proof.
+  intros p s xs H. split; [exact (ema_outs_xr p s xs H)|]. split; [|reflexivity].
+  apply kreal_range. apply (ema_new_xr p s H).
+Qed.
+Theorem C02_ema_closed_form : forall (k x1 : R) (xs : list R), xs <> [] ->
+  last (ema_real k x1 xs) 0%R = (ema_closed_sum k (rev xs) + (1 - k) ^ length xs * x1)%R.
+Proof. exact ema_real_last. Qed.
+Theorem C02_ema_closed_sum_def : forall k x r, ema_closed_sum k [] = 0%R /\ ema_closed_sum k (x :: r) = (k * x + (1 - k) * ema_closed_sum k r)%R.
+Proof. intros. split; reflexivity. Qed.
